@@ -53,6 +53,17 @@ def main():
     # live: no stale snapshots here (an exchange does not take back what it has reported; C11 covers stale/duplicated snapshots)
     livegen.run_live_family(ck, "live_histories", [livegen.gen_script(rng, {"restart": True, "max_len": 30, "no_stale": True}) for _ in range(n)], chk, PID)
     livegen.run_live_family(ck, "live_fault_enumeration", livegen.directed_faults(False, rng), chk, PID)
+    # a cancel / update / replace whose call meets API errors is being retried (the call is still outstanding): the order stays in its transient
+    # status, a further request is rejected - on every seed, not only when a random script happens to try
+    ok_ = livegen.CLEAN
+    dcases = []
+    for kind, arg in (("cancel", None), ("update", "PERSIST"), ("replace", 300)):
+        for errs in (1, 2, 3):
+            for kind2, arg2 in (("cancel", None), ("update", "PERSIST"), ("replace", 250)):
+                dcases.append({"strategies": 1, "steps": [["book", "OPEN"], ["place", 0, 101, "BACK", 200, 500, None, False], ["deliver", 0, ok_], ["stream", "full"],
+                                                         ["req", kind, 0, arg, True], ["call", 0, dict(ok_, errors=errs)], ["req", kind2, 0, arg2, False], ["respond", 0],
+                                                         ["drain", [ok_]], ["stream", "full"], ["stream", "full"]]})
+    livegen.run_live_family(ck, "request_while_a_failed_call_is_being_retried", dcases, chk, PID)
     # simulation: whole-loop scenarios; requests at any timing; races of the latency window with fills / suspension lapses / removals / close
     scs = [simgen.gen_scenario(rng, {"kinds": ["L"] * 8 + ["LOC", "MOC"], "p_manage": 0.75, "p_susp": 0.3, "p_inplay": 0.2, "p_remove": 0.08, "p_fok": 0.15}) for _ in range(800 if thorough else 200)]
     simcheck.run_family(ck, "simulation_histories", scs, propcheck.c03, "C03", "sim", hyp=True)
